@@ -387,8 +387,12 @@ def main():
         "wall_s": round(wall, 2),
         "violations": violations,
     }
-    (common.VERIF / "evidence").mkdir(exist_ok=True)
-    (common.VERIF / "evidence" / f"{pid}.json").write_text(json.dumps(ev, indent=1, default=str))
+    # evidence/ describes runs against /repo itself; a run against another tree (SA_REPO: seeded / harmless
+    # self-validation in a scratch worktree) leaves it alone and writes under .work/
+    ev_dir = common.VERIF / "evidence" if common.REPO == Path("/repo").resolve() else common.WORK / "evidence_other_tree"
+    ev_dir.mkdir(parents=True, exist_ok=True)
+    ev["repo"] = str(common.REPO)
+    (ev_dir / f"{pid}.json").write_text(json.dumps(ev, indent=1, default=str))
     print(f"{pid} tier={tier} seed={seed} cases={acc['n']} evals={acc['evals']} "
           f"nontrivial={len(acc['nontrivial'])} skipped={acc['skipped']} "
           f"theorems={gate['discharged']}/{gate['obligations']} wall={wall:.1f}s "
